@@ -10,6 +10,7 @@
    normal range; NaN, infinities, overflow and subnormals are outside the model (the generator
    never produces them).  usize arithmetic is explicit (saturating_add). *)
 From FC Require Export Common.T.
+From FC Require Export P2P.Model32.   (* C32: cached view, request codec, responses *)
 Open Scope Z_scope.
 
 (* ------------------------------------------------------------------ *)
@@ -371,5 +372,6 @@ Definition main31 (input observed : T) : T :=
 Definition main_T (req : T) : T :=
   match req with
   | L [I 31; input; observed] => main31 input observed
+  | L [I 32; input; observed] => main32 input observed
   | _ => tErr 0
   end.
